@@ -430,7 +430,7 @@ func main() {
 			continue
 		}
 		r := prng.ForCase(f.Seed, k)
-		switch r.Weighted([]int{8, 36, 10, 10, 10, 8, 4, 6, 5, 3, 3}) {
+		switch r.Weighted([]int{8, 36, 10, 10, 10, 8, 4, 6, 5, 3, 5}) {
 		case 0:
 			rn.varuintCase(k, r)
 			o.Count("case:varuint")
